@@ -1376,11 +1376,70 @@ Lemma read_lit h w : read_src h (SLit w) (lenN w) = w.
 Proof. cbn [read_src]. apply takeN_all. lia. Qed.
 
 (* a state change through `fin` with result contents c_ok / c_throw *)
+Ltac foldgetv F :=
+  repeat match type of F with context [nth ?k (vars ?s) sb0] => change (nth k (vars s) sb0) with (getv s k) in F end.
 Ltac fin_done F :=
-  repeat match type of F with context [nth ?k (vars ?s) sb0] => change (nth k (vars s) sb0) with (getv s k) in F end;
-  destruct F as (F1 & F2 & F3 & F4); split; [exact F1|]; split; [exact F2|];
+  foldgetv F; destruct F as (F1 & F2 & F3 & F4); split; [exact F1|]; split; [exact F2|];
   destruct F4 as [F4|F4]; rewrite F4 in F3 |- *; cbn [spec_after spec_vals spec_throw]; rewrite F3;
-  rewrite ?upd_absv_same; reflexivity.
+  rewrite ?upd_absv_same, ?upd_same; reflexivity.
+
+Lemma RS_refl h vs ex i (isok : bool) : Inv h vs ex ->
+  RS h vs ex i (content h (nth i vs sb0)) (content h (nth i vs sb0))
+     (if isok then Ok (h, nth i vs sb0) else Throw (h, nth i vs sb0)).
+Proof.
+  intros I. destruct isok; cbn [RS fst snd]; rewrite upd_same;
+    (split; [exact I|]; split; [intros j _ _; reflexivity|]; split; [reflexivity|lia]).
+Qed.
+Lemma cow_RS h vs ex i ns : Inv h vs ex -> (i < length vs)%nat ->
+  RS h vs ex i (content h (nth i vs sb0)) (content h (nth i vs sb0)) (cow alloc_cap h (nth i vs sb0) ns).
+Proof.
+  intros I Hi. destruct (cow alloc_cap h (nth i vs sb0) ns) as [x|x|] eqn:Ec; cbn [RS].
+  - destruct (cow_spec alloc_cap h vs ex i _ ns x true I Hi eq_refl Ec) as [(K1 & K2 & K3 & K4 & K5) _]. auto.
+  - destruct (cow_spec alloc_cap h vs ex i _ ns x false I Hi eq_refl Ec) as [(K1 & K2 & K3 & K4 & K5) _]. auto.
+  - eapply cow_defined; eauto.
+Qed.
+
+(* rawAppendStart(n); write w; rawAppendFinish(p, |w|) *)
+Lemma sb_rawAppend_spec h vs ex i n w : Inv h vs ex -> (i < length vs)%nat -> lenN w <= n ->
+  match sb_rawAppend alloc_cap h (nth i vs sb0) n w with
+  | RawOk h' s' => Inv h' (upd vs i s') ex /\ others_same h h' vs i /\ content h' s' = content h (nth i vs sb0) ++ w
+  | RawShort h' s' | RawThrow h' s' =>
+      Inv h' (upd vs i s') ex /\ others_same h h' vs i /\ content h' s' = content h (nth i vs sb0)
+  | RawUndef => False
+  end.
+Proof.
+  intros I Hi Hw. unfold sb_rawAppend.
+  pose proof (rawSpace_spec alloc_cap h vs ex i _ n I Hi eq_refl) as R.
+  destruct (rawSpace alloc_cap h (nth i vs sb0) n) as [[h1 s1]|[h1 s1]|]; [| |contradiction].
+  2:{ destruct R as (J1 & J2 & J3 & _). cbn [fst snd] in *. auto. }
+  assert (R' : keeps h vs ex i (h1, s1) /\ slen s1 = slen (nth i vs sb0) /\ (0 < n -> tail h1 s1)).
+  { cbn [fst snd] in R. destruct R as [(A & B & C & D)|(A & B & C & D)]; auto. }
+  clear R. destruct R' as ((J1 & J2 & J3 & _) & L & T). cbn [fst snd] in J1, J2, J3.
+  assert (Hi1 : (i < length (upd vs i s1))%nat) by (rewrite length_upd; assumption).
+  assert (N1 : nth i (upd vs i s1) sb0 = s1) by (rewrite nth_upd, Nat.eqb_refl by assumption; reflexivity).
+  destruct (inv_wf _ _ _ J1 i Hi1) as [W1 W2]. rewrite N1 in W1, W2.
+  destruct (_ <? n); [auto|].
+  destruct (negb (mb_canAppend _ _ _)); [auto|].
+  destruct (lenN w =? 0) eqn:E0.
+  { apply N.eqb_eq in E0. apply lenN_nil in E0. subst w. rewrite app_nil_r. auto. }
+  destruct (N.min maxSize _ <? _) eqn:Emin; [auto|].
+  destruct (bsize (getb h1 (sstore s1)) <? soff s1 + slen s1) eqn:Eb; [lia|].
+  assert (Tl : tail h1 s1) by (apply T; lia). unfold tail in Tl.
+  set (s2 := mkSBuf (sstore s1) (soff s1) (slen s1 + lenN w)).
+  set (d := takeN (soff s1 + slen s1) (bdata (getb h1 (sstore s1))) ++ w).
+  assert (Ed : d = bdata (getb h1 (sstore s1)) ++ w).
+  { unfold d. rewrite takeN_all by (unfold bsize in Tl; lia). reflexivity. }
+  destruct (inplace_step h1 (upd vs i s1) ex i s2 d J1 Hi1) as (K1 & K2 & K3 & K4); cbn [sstore soff slen s2]; rewrite ?N1.
+  - reflexivity.
+  - rewrite Ed, lenN_app. unfold bsize in *. lia.
+  - rewrite Ed, lenN_app. unfold bsize in *. lia.
+  - right. exists w. exact Ed.
+  - change (sstore s2) with (sstore s1) in K1, K2, K3. rewrite upd_upd in K1. split; [exact K1|]. split.
+    + intros j Hj Hn. specialize (K3 j). rewrite length_upd, nth_upd in K3 by assumption.
+      destruct (Nat.eqb_spec j i); [contradiction|]. rewrite K3 by assumption. apply J3; assumption.
+    + rewrite K2, Ed. change (soff s2) with (soff s1). change (slen s2) with (slen s1 + lenN w).
+      rewrite window_tail_app by (unfold bsize in Tl; lia). rewrite <- content_window, J2. reflexivity.
+Qed.
 
 Theorem step_refines st o : SInv st -> covered st o ->
   SInv (fst (step alloc_cap st o)) /\ snd (step alloc_cap st o) <> RUndef /\
@@ -1388,11 +1447,11 @@ Theorem step_refines st o : SInv st -> covered st o ->
 Proof.
   intros I C. destruct o; cbn [covered] in C; try contradiction; cbn [step].
   - (* OSet *)
-    pose proof (fin_RS st i _ _ _ I C (sb_assign_raw_RS alloc_cap _ _ _ i _ (SLit w) (lenN w) I C eq_refl (N.le_refl _))) as F.
+    pose proof (fin_RS st i _ _ _ I C (sb_assign_raw_RS alloc_cap _ _ _ i _ (SLit w) (lenN w) I C eq_refl (N.le_refl _))) as F. foldgetv F.
     rewrite read_lit in F. fin_done F.
   - (* OAsg *)
     destruct C as [Hi Hj]. destruct (Nat.eqb_spec i j) as [->|Hn]; cbn [fst snd spec_after spec_vals].
-    { split; [assumption|]. split; [discriminate|]. rewrite nth_absv. symmetry. apply upd_absv_same. }
+    { split; [assumption|]. split; [discriminate|]. symmetry. apply upd_same. }
     unfold sb_assign; cbn [fst snd spec_after spec_vals].
     destruct (wf_getv st j I Hj) as [WS1 WS2].
     pose proof (Inv_lock _ _ _ (sstore (getv st j)) I WS1) as I1.
@@ -1401,8 +1460,8 @@ Proof.
     destruct (move_into_spec _ _ _ i (getv st j) I1 Hi WS') as [M1 M2]. unfold move_into in M1, M2. cbn [hp vars] in M1, M2.
     split; [exact M1|]. split; [discriminate|]. unfold absv; cbn [hp vars].
     rewrite (absv_same (hp st) _ (upd (vars st) i (getv st j))).
-    + apply (absv_upd (hp st) (hp st) (vars st) i); [assumption|intros k _ _; reflexivity|]. now rewrite nth_absv.
-    + intros k Hk. rewrite length_upd in Hk. rewrite (M2 k Hk). apply content_lock. assumption.
+    + apply (absv_upd (hp st) (hp st) (vars st) i); [assumption|intros k _ _; reflexivity|]. symmetry. apply nth_map_content.
+    + intros k Hk. rewrite length_upd in Hk. etransitivity; [exact (M2 k Hk)|apply content_lock; assumption].
   - (* OApp *)
     destruct C as [Hi Hj]. unfold sb_append.
     destruct ((slen (getv st i) =? 0) && Nat.eqb (sstore (getv st i)) 0) eqn:Eopt.
@@ -1410,8 +1469,9 @@ Proof.
       assert (Ze : nth i (absv st) [] = []).
       { rewrite nth_absv, content_window. replace (slen (getv st i)) with 0 by lia. apply window_zero. }
       destruct (Nat.eqb_spec i j) as [->|Hn]; cbn [fin fst snd spec_after spec_vals].
-      { rewrite (upd_same' _ _ _ _ eq_refl). split; [destruct st; exact I|]. split; [discriminate|].
-        rewrite Ze. cbn [app]. destruct st; cbn [hp vars]. symmetry. rewrite <- Ze at 2. apply upd_same. }
+      { unfold getv. rewrite upd_same. split; [destruct st; exact I|]. split; [discriminate|].
+        rewrite Ze. cbn [app]. replace (upd (absv st) j []) with (absv st) by (rewrite <- Ze; symmetry; apply upd_same).
+        destruct st; reflexivity. }
       unfold sb_assign; cbn [fin fst snd spec_after spec_vals]. rewrite Ze. cbn [app].
       destruct (wf_getv st j I Hj) as [WS1 WS2].
       pose proof (Inv_lock _ _ _ (sstore (getv st j)) I WS1) as I1.
@@ -1420,42 +1480,208 @@ Proof.
       destruct (move_into_spec _ _ _ i (getv st j) I1 Hi WS') as [M1 M2]. unfold move_into in M1, M2. cbn [hp vars] in M1, M2.
       split; [exact M1|]. split; [discriminate|]. unfold absv; cbn [hp vars].
       rewrite (absv_same (hp st) _ (upd (vars st) i (getv st j))).
-      * apply (absv_upd (hp st) (hp st) (vars st) i); [assumption|intros k _ _; reflexivity|]. now rewrite nth_absv.
-      * intros k Hk. rewrite length_upd in Hk. rewrite (M2 k Hk). apply content_lock. assumption.
+      * apply (absv_upd (hp st) (hp st) (vars st) i); [assumption|intros k _ _; reflexivity|]. symmetry. apply nth_map_content.
+      * intros k Hk. rewrite length_upd in Hk. etransitivity; [exact (M2 k Hk)|apply content_lock; assumption].
     + destruct (src_in_var st j 0 (slen (getv st j)) I Hj ltac:(lia)) as [Sin Srd].
       rewrite N.add_0_r in Sin, Srd. rewrite dropN_0 in Srd.
-      pose proof (fin_RS st i _ _ _ I Hi (sb_append_raw_RS alloc_cap _ _ _ i _ _ _ I Hi eq_refl Sin)) as F.
+      pose proof (fin_RS st i _ _ _ I Hi (sb_append_raw_RS alloc_cap _ _ _ i _ _ _ I Hi eq_refl Sin)) as F. foldgetv F.
       unfold sb_append_raw in F. rewrite Srd in F.
       rewrite takeN_all in F by (rewrite nth_absv; rewrite (wf_content_len _ _ (wf_getv st j I Hj)); lia).
       rewrite <- nth_absv in F. fin_done F.
   - (* OApl *)
-    pose proof (fin_RS st i _ _ _ I C (sb_append_raw_RS alloc_cap _ _ _ i _ (SLit w) (lenN w) I C eq_refl (N.le_refl _))) as F.
+    pose proof (fin_RS st i _ _ _ I C (sb_append_raw_RS alloc_cap _ _ _ i _ (SLit w) (lenN w) I C eq_refl (N.le_refl _))) as F. foldgetv F.
     rewrite read_lit, <- nth_absv in F. fin_done F.
   - (* OApr *)
     destruct C as [Hi Hj]. destruct (slen (getv st j) <? off + n) eqn:Esk; cbn [fst snd spec_after].
     { split; [assumption|]. split; [discriminate|reflexivity]. }
     destruct (src_in_var st j off n I Hj ltac:(lia)) as [Sin Srd].
-    pose proof (fin_RS st i _ _ _ I Hi (sb_append_raw_RS alloc_cap _ _ _ i _ _ _ I Hi eq_refl Sin)) as F.
+    pose proof (fin_RS st i _ _ _ I Hi (sb_append_raw_RS alloc_cap _ _ _ i _ _ _ I Hi eq_refl Sin)) as F. foldgetv F.
     rewrite Srd, <- nth_absv in F. fin_done F.
   - (* OAsr *)
     destruct C as [Hi Hj]. destruct (slen (getv st j) <? off + n) eqn:Esk; cbn [fst snd spec_after].
     { split; [assumption|]. split; [discriminate|reflexivity]. }
     destruct (src_in_var st j off n I Hj ltac:(lia)) as [Sin Srd].
-    pose proof (fin_RS st i _ _ _ I Hi (sb_assign_raw_RS alloc_cap _ _ _ i _ _ _ I Hi eq_refl Sin)) as F.
+    pose proof (fin_RS st i _ _ _ I Hi (sb_assign_raw_RS alloc_cap _ _ _ i _ _ _ I Hi eq_refl Sin)) as F. foldgetv F.
     rewrite Srd in F. fin_done F.
   - (* OPsh *)
-    pose proof (fin_RS st i _ _ _ I C (lowAppend_RS alloc_cap _ _ _ i _ (SLit [c]) 1 I C eq_refl ltac:(cbn; lia))) as F.
+    pose proof (fin_RS st i _ _ _ I C (lowAppend_RS alloc_cap _ _ _ i _ (SLit [c]) 1 I C eq_refl ltac:(cbn; lia))) as F. foldgetv F.
     cbn [read_src takeN N.eqb] in F. rewrite <- nth_absv in F. fin_done F.
-  - admit.
-  - admit.
-  - admit.
-  - admit.
-  - admit.
-  - admit.
-  - admit.
-  - admit.
-  - admit.
-  - admit.
-  - admit.
-Admitted.
+  - (* OCon *)
+    destruct C as [Hd Hi]. rename i into src. set (s := getv st src).
+    set (k := if n =? npos then slen s else N.min n (slen s)).
+    destruct (wf_getv st src I Hi) as [W1 W2]. fold s in W1, W2.
+    pose proof (var_len_bound _ _ _ src I Hi) as Lb. change (nth src (vars st) sb0) with s in Lb.
+    pose proof (wf_content_len _ _ (wf_getv st src I Hi)) as Lc. fold s in Lc.
+    assert (Ek : (if n =? npos then lenN (nth src (absv st) []) else N.min n (lenN (nth src (absv st) []))) = k).
+    { rewrite nth_absv. fold s. rewrite Lc. reflexivity. }
+    unfold sb_substr. set (h1 := lock (hp st) (sstore s)).
+    pose proof (Inv_lock _ _ _ (sstore s) I W1) as I1. fold h1 in I1.
+    assert (B1 : 2 <= blocks (getb h1 (sstore s))).
+    { unfold h1. rewrite getb_lock, Nat.eqb_refl by assumption. cbn [blocks].
+      pose proof (inv_cnt _ _ _ I _ W1) as Cn. pose proof (refs_ge1 (vars st) src (sstore s) Hi) as G.
+      change (nth src (vars st) sb0) with s in G. rewrite dl_eq in G by reflexivity. lia. }
+    assert (Bs : bsize (getb h1 (sstore s)) = bsize (getb (hp st) (sstore s))).
+    { unfold bsize, h1. rewrite bdata_lock by assumption. reflexivity. }
+    destruct (chop_shared h1 s 0 k B1 Lb ltac:(lia)) as (X1 & X2 & X3 & X4).
+    destruct (sb_chop h1 s 0 k) as [h1' rv]. cbn [fst snd] in X1, X2, X3, X4. subst h1'.
+    destruct (chop_shared h1 s k npos B1 Lb ltac:(lia)) as (Y1 & Y2 & Y3 & Y4).
+    destruct (sb_chop h1 s k npos) as [h2 s']. cbn [fst snd] in Y1, Y2, Y3, Y4. subst h2.
+    cbn [fst snd spec_after spec_vals]. rewrite Ek.
+    assert (I2 : Inv h1 (upd (vars st) src s') (exadd ex0 (sstore s))).
+    { apply Inv_upd_fields; auto. rewrite Y2. assumption. }
+    assert (Wrv : wf h1 rv).
+    { split; [rewrite X2; unfold h1; rewrite length_lock; assumption|rewrite X2; assumption]. }
+    rewrite <- X2 in I2.
+    destruct (move_into_spec h1 (upd (vars st) src s') ex0 d rv I2 ltac:(rewrite length_upd; assumption) Wrv) as [M1 M2].
+    split; [exact M1|]. split; [discriminate|].
+    rewrite length_upd in M2. unfold absv at 1.
+    rewrite (absv_same h1 _ _ ).
+    2:{ intros j Hj. unfold move_into in Hj; cbn [vars] in Hj. rewrite !length_upd in Hj. exact (M2 j Hj). }
+    unfold absv.
+    assert (Cl : forall x, content h1 x = content (hp st) x) by (intros x; apply content_lock; assumption).
+    rewrite (absv_upd (hp st) h1 (upd (vars st) src s') d rv (takeN k (nth src (absv st) []))).
+    + f_equal. apply (absv_upd (hp st) (hp st) (vars st) src s'); [assumption|intros j _ _; reflexivity|].
+      rewrite <- Cl, Y4, Cl. rewrite nth_absv. fold s.
+      rewrite takeN_all by (rewrite lenN_dropN, Lc; unfold npos, gen_npos, two32 in *; lia). reflexivity.
+    + rewrite length_upd. assumption.
+    + intros j _ _. apply Cl.
+    + rewrite X4, Cl, dropN_0, nth_absv. reflexivity.
+  - (* OChp *)
+    rewrite (sb_chop_fields _ _ _ _ (var_len_bound _ _ _ i I C)).
+    set (s := getv st i) in *. set (p' := N.min pos (slen s)). set (n' := N.min n (slen s - p')).
+    destruct (wf_getv st i I C) as [W1 W2]. fold s in W1, W2.
+    assert (Cl : takeN n (dropN pos (nth i (absv st) [])) = window (soff s + p') n' (bdata (getb (hp st) (sstore s)))).
+    { rewrite nth_absv. fold s. rewrite content_window. symmetry. apply window_clip. exact W2. }
+    cbn [spec_after spec_vals]. 
+    destruct ((p' =? slen s) || (n' =? 0)) eqn:E.
+    + destruct (sb_clear (hp st) s) as [h1 s1] eqn:Ec. cbn [fst snd spec_after spec_vals]. rewrite Cl.
+      destruct (sb_clear_spec (hp st) (vars st) ex0 i s h1 s1 I C eq_refl Ec) as (K1 & K2 & K3 & _).
+      split; [exact K1|]. split; [discriminate|].
+      assert (Z : n' = 0) by (unfold n' in *; lia). rewrite Z, window_zero.
+      unfold absv; cbn [hp vars]. apply absv_upd; assumption.
+    + cbn [fst snd spec_after spec_vals]. rewrite Cl. unfold SInv; cbn [hp vars].
+      assert (Hb : soff s + p' + n' <= bsize (getb (hp st) (sstore s))) by (unfold n', p' in *; lia).
+      split; [apply Inv_upd_fields; cbn [sstore soff slen]; auto|]. split; [discriminate|].
+      unfold absv; cbn [hp vars]. apply absv_upd; [assumption|intros j _ _; reflexivity|].
+      rewrite content_window. reflexivity.
+  - (* OSub *)
+    destruct C as [Hd Hi]. rename i into src. set (s := getv st src).
+    destruct (wf_getv st src I Hi) as [W1 W2]. fold s in W1, W2.
+    pose proof (var_len_bound _ _ _ src I Hi) as Lb. change (nth src (vars st) sb0) with s in Lb.
+    unfold sb_substr. set (h1 := lock (hp st) (sstore s)).
+    pose proof (Inv_lock _ _ _ (sstore s) I W1) as I1. fold h1 in I1.
+    assert (B1 : 2 <= blocks (getb h1 (sstore s))).
+    { unfold h1. rewrite getb_lock, Nat.eqb_refl by assumption. cbn [blocks].
+      pose proof (inv_cnt _ _ _ I _ W1) as Cn. pose proof (refs_ge1 (vars st) src (sstore s) Hi) as G.
+      change (nth src (vars st) sb0) with s in G. rewrite dl_eq in G by reflexivity. lia. }
+    assert (Bs : bsize (getb h1 (sstore s)) = bsize (getb (hp st) (sstore s))).
+    { unfold bsize, h1. rewrite bdata_lock by assumption. reflexivity. }
+    destruct (chop_shared h1 s pos n B1 Lb ltac:(lia)) as (X1 & X2 & X3 & X4).
+    destruct (sb_chop h1 s pos n) as [h1' rv]. cbn [fst snd] in X1, X2, X3, X4. subst h1'.
+    cbn [fst snd spec_after spec_vals].
+    assert (Wrv : wf h1 rv).
+    { split; [rewrite X2; unfold h1; rewrite length_lock; assumption|rewrite X2; assumption]. }
+    rewrite <- X2 in I1.
+    destruct (move_into_spec h1 (vars st) ex0 d rv I1 Hd Wrv) as [M1 M2].
+    split; [exact M1|]. split; [discriminate|].
+    unfold absv at 1. rewrite (absv_same h1 _ _).
+    2:{ intros j Hj. unfold move_into in Hj; cbn [vars] in Hj. rewrite length_upd in Hj. exact (M2 j Hj). }
+    assert (Cl : forall x, content h1 x = content (hp st) x) by (intros x; apply content_lock; assumption).
+    unfold absv. apply (absv_upd (hp st) h1 (vars st) d rv); [assumption|intros j _ _; apply Cl|].
+    rewrite X4, Cl, nth_absv. reflexivity.
+  - (* OTrm *)
+    destruct C as [Hi Hj]. set (s := getv st i). set (R := content (hp st) (getv st j)).
+    destruct (wf_getv st i I Hi) as [W1 W2]. fold s in W1, W2.
+    unfold sb_trim. fold s.
+    assert (Ha : Nat.eqb i j = true -> R = content (hp st) s).
+    { intros E. apply Nat.eqb_eq in E. subst j. reflexivity. }
+    destruct (trim_model_spec (Nat.eqb i j) R (content (hp st) s) atBeginning atEnd Ha) as [T1 (y & x & T2 & T3)].
+    cbn zeta in T1, T3.
+    set (c1 := if atEnd then rev (trim_end_loop (Nat.eqb i j) R (rev (content (hp st) s))) else content (hp st) s) in *.
+    set (c2 := if atBeginning then trim_begin_loop (Nat.eqb i j) R c1 else c1) in *.
+    set (s2 := mkSBuf (sstore s) (soff s + (lenN c1 - lenN c2)) (lenN c2)).
+    pose proof (wf_content_len _ _ (wf_getv st i I Hi)) as Lc. fold s in Lc.
+    assert (Lx : lenN y + lenN c2 + lenN x = slen s) by (rewrite <- Lc, T2, !lenN_app; lia).
+    assert (Cw : window (soff s2) (slen s2) (bdata (getb (hp st) (sstore s))) = c2).
+    { cbn [soff slen s2]. rewrite <- T3.
+      rewrite <- (window_window (soff s) (slen s) (lenN y) (lenN c2)) by lia.
+      rewrite <- content_window, T2. unfold window. rewrite dropN_skipn, takeN_firstn, lenN_length.
+      rewrite Nat2N.id, skipn_app, skipn_all, Nat.sub_diag. cbn [skipn app].
+      rewrite firstn_app, lenN_length, Nat2N.id, firstn_all, Nat.sub_diag. cbn [firstn]. now rewrite app_nil_r. }
+    assert (Sv : spec_vals (absv st) (OTrm i j atBeginning atEnd) = upd (absv st) i c2).
+    { cbn [spec_vals]. rewrite !nth_absv. fold s R. rewrite <- T1. reflexivity. }
+    destruct (slen s2 =? 0) eqn:E0.
+    + destruct (sb_clear (hp st) s2) as [h1 s1] eqn:Ec. cbn [fst snd spec_after]. rewrite Sv.
+      assert (I2 : Inv (hp st) (upd (vars st) i s2) ex0).
+      { apply Inv_upd_fields; cbn [sstore soff slen s2]; auto. lia. }
+      assert (Hi2 : (i < length (upd (vars st) i s2))%nat) by (rewrite length_upd; assumption).
+      assert (N2 : nth i (upd (vars st) i s2) sb0 = s2) by (rewrite nth_upd, Nat.eqb_refl by assumption; reflexivity).
+      destruct (sb_clear_spec (hp st) _ ex0 i s2 h1 s1 I2 Hi2 N2 Ec) as (K1 & K2 & K3 & _).
+      rewrite upd_upd in K1. split; [exact K1|]. split; [discriminate|].
+      assert (Z : c2 = []) by (apply lenN_nil; cbn [slen s2] in E0; lia). rewrite Z.
+      unfold absv; cbn [hp vars]. apply absv_upd; [assumption| |assumption].
+      intros k Hk Hn. specialize (K3 k). rewrite length_upd, nth_upd in K3 by assumption.
+      destruct (Nat.eqb_spec k i); [contradiction|]. apply K3; assumption.
+    + cbn [fst snd spec_after]. rewrite Sv. unfold SInv; cbn [hp vars].
+      split; [apply Inv_upd_fields; cbn [sstore soff slen s2]; auto; lia|]. split; [discriminate|].
+      unfold absv; cbn [hp vars]. apply absv_upd; [assumption|intros k _ _; reflexivity|].
+      rewrite content_window. exact Cw.
+  - (* OSat *)
+    destruct (sb_setAt_RS alloc_cap _ _ _ i _ pos c I C eq_refl) as [R _].
+    pose proof (fin_RS st i _ _ _ I C R) as F. foldgetv F. rewrite <- nth_absv in F. fin_done F.
+  - (* OClr *)
+    destruct (sb_clear (hp st) (getv st i)) as [h1 s1] eqn:Ec. cbn [fst snd spec_after spec_vals].
+    destruct (sb_clear_spec (hp st) (vars st) ex0 i _ h1 s1 I C eq_refl Ec) as (K1 & K2 & K3 & _).
+    split; [exact K1|]. split; [discriminate|]. unfold absv; cbn [hp vars]. apply absv_upd; assumption.
+  - (* ORsv *)
+    assert (R : RS (hp st) (vars st) ex0 i (content (hp st) (getv st i)) (content (hp st) (getv st i))
+                   (sb_reserveSpace alloc_cap (hp st) (getv st i) n)).
+    { unfold sb_reserveSpace, sb_reserveCapacity.
+      destruct (maxSize <? n); [exact (RS_refl _ _ _ i false I)|].
+      destruct (sub32 maxSize n <? _); [exact (RS_refl _ _ _ i false I)|].
+      destruct (maxSize <? _); [exact (RS_refl _ _ _ i false I)|]. apply cow_RS; assumption. }
+    pose proof (fin_RS st i _ _ _ I C R) as F. fin_done F.
+  - (* ORcp *)
+    assert (R : RS (hp st) (vars st) ex0 i (content (hp st) (getv st i)) (content (hp st) (getv st i))
+                   (sb_reserveCapacity alloc_cap (hp st) (getv st i) n)).
+    { unfold sb_reserveCapacity.
+      destruct (maxSize <? n); [exact (RS_refl _ _ _ i false I)|]. apply cow_RS; assumption. }
+    pose proof (fin_RS st i _ _ _ I C R) as F. fin_done F.
+  - (* ORsq *)
+    assert (R : RS (hp st) (vars st) ex0 i (content (hp st) (getv st i)) (content (hp st) (getv st i))
+                   (sb_reserve alloc_cap (hp st) (getv st i) ideal minSpace maxCap allowShared)).
+    { unfold sb_reserve, sb_reserveCapacity.
+      destruct (_ && (minSpace <=? _)); [exact (RS_refl _ _ _ i true I)|].
+      destruct (_ && (maxCap <=? _)); [exact (RS_refl _ _ _ i true I)|].
+      destruct (maxSize <? _); [exact (RS_refl _ _ _ i false I)|]. apply cow_RS; assumption. }
+    destruct (sb_reserve alloc_cap (hp st) (getv st i) ideal minSpace maxCap allowShared) as [[h1 s1]|[h1 s1]|];
+      cbn [RS fst snd] in R; [| |contradiction]; destruct R as (R1 & R2 & R3 & _); cbn [fst snd spec_after spec_vals spec_throw].
+    + split; [exact R1|]. split; [discriminate|]. unfold absv; cbn [hp vars].
+      rewrite (absv_upd _ _ _ _ _ _ C R2 R3). apply upd_absv_same.
+    + split; [exact R1|]. split; [discriminate|]. unfold absv; cbn [hp vars].
+      rewrite (absv_upd _ _ _ _ _ _ C R2 R3). apply upd_absv_same.
+  - (* ORaw *)
+    destruct C as [Hi Hw]. pose proof (sb_rawAppend_spec (hp st) (vars st) ex0 i n w I Hi Hw) as R.
+    change (nth i (vars st) sb0) with (getv st i) in R.
+    destruct (sb_rawAppend alloc_cap (hp st) (getv st i) n w) as [h1 s1|h1 s1|h1 s1|]; [| | |contradiction];
+      destruct R as (R1 & R2 & R3); cbn [fst snd spec_after spec_vals spec_throw].
+    + split; [exact R1|]. split; [discriminate|]. unfold absv; cbn [hp vars].
+      rewrite (absv_upd _ _ _ _ _ _ Hi R2 R3). now rewrite nth_absv.
+    + split; [exact R1|]. split; [discriminate|]. unfold absv; cbn [hp vars].
+      rewrite (absv_upd _ _ _ _ _ _ Hi R2 R3). apply upd_absv_same.
+    + split; [exact R1|]. split; [discriminate|]. unfold absv; cbn [hp vars].
+      rewrite (absv_upd _ _ _ _ _ _ Hi R2 R3). apply upd_absv_same.
+  - (* OQuery *)
+    cbn [fst snd]. split; [exact I|]. split.
+    + destruct q; cbn [run_query]; try discriminate.
+      destruct (pos <? slen (getv st i)) eqn:E; [|discriminate].
+      pose proof (wf_content_len _ _ (wf_getv st i I C)) as L.
+      destruct (nthN pos (content (hp st) (getv st i))) eqn:En; [discriminate|].
+      exfalso. revert L En. generalize (content (hp st) (getv st i)). intros l.
+      assert (G : forall (l : bytes) p, p < lenN l -> nthN p l <> None).
+      { induction l0 as [|x l0 IH]; intros p Hp; cbn [lenN nthN] in *; [lia|].
+        destruct (p =? 0) eqn:E0; [discriminate|]. apply IH. lia. }
+      intros L En. apply (G l pos); [lia|assumption].
+    + destruct (run_query st i q); reflexivity.
+Qed.
 End StepProofs2.
